@@ -4,9 +4,13 @@ import (
 	"encoding/json"
 	"fmt"
 	"math/rand"
+	"runtime"
 	"strings"
+	"sync"
+	"sync/atomic"
 	"time"
 
+	"github.com/honeycombio/refinery/types"
 	cq "github.com/honeycombio/refinery/verifharness/coqfmt"
 )
 
@@ -27,8 +31,21 @@ type c22Item struct {
 	Fmt   int    `json:"fmt"`  // msgp: 32 | 64 | 96
 }
 
-type c22Input struct {
+// one batch request of a multi-request case
+type c22Req struct {
+	Enc   string    `json:"enc"` // json | msgp
 	Items []c22Item `json:"items"`
+}
+
+type c22Input struct {
+	Items []c22Item `json:"items,omitempty"`
+	// Mode "" : the items above, one request at a time.
+	// Mode "interleave": Reqs[0] is posted; while its handler is parked at its first forwarded event
+	//   (all events decoded, only the first one's time converted), Reqs[1:] are posted and handled
+	//   completely; then Reqs[0] resumes. Deterministic (one P, explicit hand-over).
+	// Mode "concurrent": all Reqs are posted at the same time from separate goroutines.
+	Mode string   `json:"mode,omitempty"`
+	Reqs []c22Req `json:"reqs,omitempty"`
 }
 
 func init() {
@@ -119,7 +136,37 @@ func c22GenItem(r *rand.Rand) c22Item {
 	return it
 }
 
+func c22GenReq(r *rand.Rand, enc string, n int) c22Req {
+	q := c22Req{Enc: enc}
+	for len(q.Items) < n {
+		it := c22GenItem(r)
+		if (enc == "msgp") != (it.Kind == "msgp") {
+			continue
+		}
+		it.Batch = true
+		q.Items = append(q.Items, it)
+	}
+	return q
+}
+
 func c22Gen(r *rand.Rand, tier string, i int) any {
+	// every third case exercises overlapping requests
+	if i%3 == 1 {
+		in := c22Input{Mode: "interleave"}
+		encA := []string{"json", "json", "json", "msgp"}[r.Intn(4)]
+		in.Reqs = append(in.Reqs, c22GenReq(r, encA, 2+r.Intn(6)))
+		for k := 1 + r.Intn(2); k > 0; k-- {
+			in.Reqs = append(in.Reqs, c22GenReq(r, []string{"json", "json", "msgp"}[r.Intn(3)], 1+r.Intn(7)))
+		}
+		return in
+	}
+	if i%3 == 2 && i%2 == 0 {
+		in := c22Input{Mode: "concurrent"}
+		for k := 3 + r.Intn(4); k > 0; k-- {
+			in.Reqs = append(in.Reqs, c22GenReq(r, []string{"json", "json", "msgp"}[r.Intn(3)], 2+r.Intn(8)))
+		}
+		return in
+	}
 	n := 4 + r.Intn(12)
 	if tier == "thorough" {
 		n = 8 + r.Intn(24)
@@ -173,6 +220,9 @@ func c22Run(raw json.RawMessage) (Case, error) {
 	var in c22Input
 	if err := json.Unmarshal(raw, &in); err != nil {
 		return Case{}, err
+	}
+	if in.Mode != "" {
+		return c22RunMulti(in)
 	}
 	n, err := rtGetNode()
 	if err != nil {
@@ -257,45 +307,223 @@ func c22Run(raw json.RawMessage) (Case, error) {
 	var items, human, tags []string
 	nontriv := false
 	for i, it := range in.Items {
-		var f, mtsS string
-		switch it.Kind {
-		case "epoch":
-			f = cq.App("FEpoch", cq.Nat(it.K))
-			tags = append(tags, fmt.Sprintf("fmt:epoch-%d-digits", 10+it.K))
-			nontriv = nontriv || it.K > 0
-		case "rfc":
-			f = cq.App("FRfc", cq.Nat(it.K), cq.Z(int64(it.Off)), cq.Bool(it.Zulu))
-			tags = append(tags, fmt.Sprintf("fmt:rfc3339-frac%d", it.K))
-			nontriv = nontriv || it.K > 0
-		default:
-			f = cq.App("FMsgp", cq.N(uint64(it.Fmt)))
-			tags = append(tags, fmt.Sprintf("fmt:msgpack-ts%d", it.Fmt))
-			nontriv = nontriv || it.Fmt != 32
-		}
-		mtsS = cq.None()
-		if it.Kind == "msgp" {
-			mtsS = cq.Some(c22Mts(sent[i]))
-		}
-		obs := "OMissing"
-		obsH := "missing"
+		var g *MV
 		if t, ok := got[i]; ok {
-			if m := c22Mts(t); m != "" {
-				obs, obsH = cq.App("OTime", m), m
-			} else {
-				obs, obsH = "OOther", fmt.Sprintf("%s ext=%d len=%d", t.K, t.ET, len(t.S))
-			}
+			g = &t
 		}
-		if it.Batch {
-			tags = append(tags, "path:batch")
-		} else {
-			tags = append(tags, "path:event-header")
-		}
-		items = append(items, cq.App("Build_item", f, cq.Bool(it.Batch), cq.Pair(cq.Z(it.Sec), cq.Z(it.Nsec)), cq.Str(texts[i]), mtsS, obs))
-		human = append(human, fmt.Sprintf("%s %q (%d,%d) -> %s", it.Kind, texts[i], it.Sec, it.Nsec, obsH))
+		item, h, tg, nt := c22Emit(it, texts[i], sent[i], g, 0)
+		items, human, tags, nontriv = append(items, item), append(human, h), append(tags, tg...), nontriv || nt
 	}
 	key, _ := json.Marshal(in)
 	return Case{Coq: cq.App("Build_case", cq.List(items)), Key: string(key), Nontriv: nontriv, Tags: tags,
 		Summary: map[string]any{"items": human, "responses": statuses}}, nil
+}
+
+// c22Emit prints one item (what the client sent, what the fake API received) as a Monitor.C22.item.
+// ctx: 0 = request handled alone, 1 = deterministic interleaving, 2 = concurrent requests.
+func c22Emit(it c22Item, text string, sent MV, got *MV, ctx uint64) (item, human string, tags []string, nontriv bool) {
+	var f string
+	switch it.Kind {
+	case "epoch":
+		f = cq.App("FEpoch", cq.Nat(it.K))
+		tags = append(tags, fmt.Sprintf("fmt:epoch-%d-digits", 10+it.K))
+		nontriv = it.K > 0
+	case "rfc":
+		f = cq.App("FRfc", cq.Nat(it.K), cq.Z(int64(it.Off)), cq.Bool(it.Zulu))
+		tags = append(tags, fmt.Sprintf("fmt:rfc3339-frac%d", it.K))
+		nontriv = it.K > 0
+	default:
+		f = cq.App("FMsgp", cq.N(uint64(it.Fmt)))
+		tags = append(tags, fmt.Sprintf("fmt:msgpack-ts%d", it.Fmt))
+		nontriv = it.Fmt != 32
+	}
+	mtsS := cq.None()
+	if it.Kind == "msgp" {
+		mtsS = cq.Some(c22Mts(sent))
+	}
+	obs, obsH := "OMissing", "missing"
+	if got != nil {
+		if m := c22Mts(*got); m != "" {
+			obs, obsH = cq.App("OTime", m), m
+		} else {
+			obs, obsH = "OOther", fmt.Sprintf("%s ext=%d len=%d", got.K, got.ET, len(got.S))
+		}
+	}
+	if it.Batch {
+		tags = append(tags, "path:batch")
+	} else {
+		tags = append(tags, "path:event-header")
+	}
+	item = cq.App("Build_item", f, cq.Bool(it.Batch), cq.Pair(cq.Z(it.Sec), cq.Z(it.Nsec)), cq.Str(text), mtsS, cq.N(ctx), obs)
+	human = fmt.Sprintf("%s %q (%d,%d) -> %s", it.Kind, text, it.Sec, it.Nsec, obsH)
+	return
+}
+
+// c22RunMulti: several batch requests whose handling overlaps. Every forwarded event is matched to
+// its own request by the (r, i) marker in its data and must carry the time ITS request supplied.
+func c22RunMulti(in c22Input) (Case, error) {
+	if len(in.Reqs) < 2 {
+		return Case{}, fmt.Errorf("mode %q needs at least two requests", in.Mode)
+	}
+	n, err := rtGetNode()
+	if err != nil {
+		return Case{}, err
+	}
+	n.begin()
+	hdr := map[string]string{"X-Honeycomb-Team": rtLegacyKey}
+	type sentItem struct {
+		text string
+		mv   MV
+	}
+	sent := make([][]sentItem, len(in.Reqs))
+	bodies := make([][]byte, len(in.Reqs))
+	ctypes := make([]string, len(in.Reqs))
+	for ri, q := range in.Reqs {
+		var js []string
+		var ms []MV
+		for i, it := range q.Items {
+			if it.Sec < 0 || it.Nsec < 0 || it.Nsec > 999999999 || it.K < 0 || it.K > 9 || it.Nsec%c22Pow10[9-it.K] != 0 {
+				return Case{}, fmt.Errorf("request %d item %d: not an instant of precision k", ri, i)
+			}
+			si := sentItem{text: c22Text(it)}
+			switch {
+			case q.Enc == "msgp" && it.Kind == "msgp":
+				if (it.Fmt == 32 && (it.Nsec != 0 || it.Sec >= 1<<32)) || (it.Fmt == 64 && it.Sec >= 1<<34) {
+					return Case{}, fmt.Errorf("request %d item %d: not representable as timestamp %d", ri, i, it.Fmt)
+				}
+				si.mv = mvTimestamp(it.Fmt, it.Sec, uint32(it.Nsec))
+				ms = append(ms, mvMap(mkv("time", si.mv), mkv("samplerate", mvInt(1)),
+					mkv("data", mvMap(mkv("r", mvInt(int64(ri))), mkv("i", mvInt(int64(i)))))))
+			case q.Enc == "json" && it.Kind != "msgp":
+				js = append(js, fmt.Sprintf(`{"time":%q,"samplerate":1,"data":{"r":%d,"i":%d}}`, si.text, ri, i))
+			default:
+				return Case{}, fmt.Errorf("request %d item %d: kind %s does not fit encoding %s", ri, i, it.Kind, q.Enc)
+			}
+			sent[ri] = append(sent[ri], si)
+		}
+		if q.Enc == "msgp" {
+			bodies[ri], ctypes[ri] = mvAppend(nil, mvArr(ms...)), "application/msgpack"
+		} else {
+			bodies[ri], ctypes[ri] = []byte("["+strings.Join(js, ",")+"]"), "application/json"
+		}
+	}
+	statuses := make([]string, len(in.Reqs))
+	post := func(ri int) error {
+		resp, err := n.post(false, "/1/batch/ds", ctypes[ri], hdr, bodies[ri])
+		if err == nil {
+			statuses[ri] = fmt.Sprintf("req%d(%s):%d", ri, in.Reqs[ri].Enc, resp.Status)
+		}
+		return err
+	}
+	ctx := uint64(2)
+	var runErr error
+	if in.Mode == "interleave" {
+		ctx = 1
+		// One P: the pooled JSON parser released by request 0's decoder is the one the next decoder gets.
+		prev := runtime.GOMAXPROCS(1)
+		parked, resume := make(chan struct{}), make(chan struct{})
+		var first atomic.Bool // sync.Once would make the other requests wait for the parked one
+		hook := &rtHookTx{inner: n.up, before: func(ev *types.Event) {
+			if first.CompareAndSwap(false, true) {
+				close(parked)
+				<-resume
+			}
+		}}
+		n.inc.UpstreamTransmission = hook
+		done := make(chan error, 1)
+		go func() { done <- post(0) }()
+		select {
+		case <-parked:
+		case err := <-done: // request 0 forwarded nothing (should not happen): carry on without interleaving
+			done <- err
+		case <-time.After(10 * time.Second):
+			runErr = fmt.Errorf("request 0 never reached its first forwarded event")
+		}
+		for ri := 1; ri < len(in.Reqs) && runErr == nil; ri++ {
+			runErr = post(ri)
+		}
+		first.Store(true) // if never parked, make sure the hook cannot park later
+		close(resume)
+		if err := <-done; err != nil && runErr == nil {
+			runErr = err
+		}
+		n.inc.UpstreamTransmission = n.up
+		runtime.GOMAXPROCS(prev)
+	} else {
+		var wg sync.WaitGroup
+		errs := make([]error, len(in.Reqs))
+		start := make(chan struct{})
+		for ri := range in.Reqs {
+			wg.Add(1)
+			go func(ri int) {
+				defer wg.Done()
+				<-start
+				errs[ri] = post(ri)
+			}(ri)
+		}
+		close(start)
+		wg.Wait()
+		for _, e := range errs {
+			if e != nil {
+				runErr = e
+			}
+		}
+	}
+	if runErr != nil {
+		n.flush()
+		return Case{}, runErr
+	}
+	n.flush()
+	evs, errs := n.api.take()
+	if len(errs) > 0 {
+		return Case{}, fmt.Errorf("fake API: %v", errs)
+	}
+	type key struct{ r, i int }
+	got := map[key]MV{}
+	num := func(v MV) int {
+		switch v.K {
+		case "uint":
+			return int(v.U)
+		case "int":
+			return int(v.I)
+		case "f64", "f32":
+			return int(v.F)
+		}
+		return -1
+	}
+	for _, e := range evs {
+		d, ok := e.Ev.get("data")
+		if !ok {
+			continue
+		}
+		rv, ok1 := d.get("r")
+		iv, ok2 := d.get("i")
+		t, ok3 := e.Ev.get("time")
+		if !ok1 || !ok2 || !ok3 {
+			continue
+		}
+		k := key{num(rv), num(iv)}
+		if _, dup := got[k]; dup {
+			return Case{}, fmt.Errorf("event %v forwarded twice", k)
+		}
+		got[k] = t
+	}
+	var items, human, tags []string
+	for ri, q := range in.Reqs {
+		for i, it := range q.Items {
+			var g *MV
+			if t, ok := got[key{ri, i}]; ok {
+				g = &t
+			}
+			item, h, tg, _ := c22Emit(it, sent[ri][i].text, sent[ri][i].mv, g, ctx)
+			items, human, tags = append(items, item), append(human, fmt.Sprintf("req%d ", ri)+h), append(tags, tg...)
+		}
+		tags = append(tags, "overlap-req:"+q.Enc)
+	}
+	tags = append(tags, "mode:"+in.Mode)
+	kb, _ := json.Marshal(in)
+	return Case{Coq: cq.App("Build_case", cq.List(items)), Key: string(kb), Nontriv: true, Tags: tags,
+		Summary: map[string]any{"mode": in.Mode, "items": human, "responses": statuses}}, nil
 }
 
 func c22Shrink(raw json.RawMessage) []json.RawMessage {
@@ -304,13 +532,37 @@ func c22Shrink(raw json.RawMessage) []json.RawMessage {
 		return nil
 	}
 	var out []json.RawMessage
+	emit := func(c c22Input) {
+		b, _ := json.Marshal(c)
+		out = append(out, b)
+	}
+	if in.Mode != "" {
+		for ri := range in.Reqs {
+			if len(in.Reqs) > 2 && ri > 0 {
+				c := in
+				c.Reqs = append(append([]c22Req{}, in.Reqs[:ri]...), in.Reqs[ri+1:]...)
+				emit(c)
+			}
+		}
+		for ri, q := range in.Reqs {
+			for i := range q.Items {
+				if len(q.Items) < 2 {
+					continue
+				}
+				c := in
+				c.Reqs = append([]c22Req{}, in.Reqs...)
+				c.Reqs[ri] = c22Req{Enc: q.Enc, Items: append(append([]c22Item{}, q.Items[:i]...), q.Items[i+1:]...)}
+				emit(c)
+			}
+		}
+		return out
+	}
 	for i := range in.Items {
 		c := c22Input{Items: append(append([]c22Item{}, in.Items[:i]...), in.Items[i+1:]...)}
 		if len(c.Items) == 0 {
 			continue
 		}
-		b, _ := json.Marshal(c)
-		out = append(out, b)
+		emit(c)
 	}
 	return out
 }
